@@ -17,6 +17,7 @@ pub(crate) fn read_hmac_block_stream(
 
     let mut pos = 0;
     let mut block_index: u64 = 0;
+    let mut terminated = false;
 
     while pos < data.len() {
         // a stream that ends inside a block cannot be verified
@@ -45,10 +46,16 @@ pub(crate) fn read_hmac_block_stream(
         block_index += 1;
 
         if size == 0 {
+            terminated = true;
             break;
         }
 
         out.extend_from_slice(block);
+    }
+
+    // a stream that stops without the empty end-of-stream block has been cut short
+    if !terminated {
+        return Err(BlockStreamError::BlockHashMismatch { block_index });
     }
 
     Ok(out)
